@@ -1,8 +1,45 @@
 (* C01 -- compiled model computes the same function (partial). The executable semantics of the
    command stream (hw/NpuExec.v) is the formal object; statements about its scaling step. *)
 From Coq Require Import ZArith List Bool Lia.
-From VV Require Import lib.PyInt hw.Npu hw.NpuExec.
+From VV Require Import lib.PyInt lib.PyFloat gen.GenScaling model.Scaling model.FpMath proofs.FpMathProofs
+  proofs.ScalingProofs proofs.NpuExecProofs hw.Npu hw.NpuExec.
 Open Scope Z_scope.
+
+(* The TFL scaling mode of the executable hardware semantics IS the reference kernels' requantisation
+   MultiplyByQuantizedMultiplier, for every 32-bit accumulator and multiplier and every shift 0..62 for which
+   the reference itself does not overflow its left shift. *)
+Theorem scale_tfl_is_reference :
+  forall x q s, in32 x -> in32 q -> 0 <= s <= 62 -> in32 (x * 2 ^ (Z.max 0 (31 - s))) ->
+    scale_tfl x q s = MultiplyByQuantizedMultiplier x q (31 - s).
+Proof. exact NpuExecProofs.scale_tfl_is_reference. Qed.
+
+(* Composition with the compiler's derivation (scaling.quantise_scale as translated from the source on this
+   run): whatever real scale m * 2^e the graph carries, the pair Vela writes into the scale record makes the
+   hardware compute, on every accumulator, exactly what the reference kernel computes with the pair the
+   reference derives (QuantizeMultiplier) from the same scale. *)
+Theorem requantisation_end_to_end :
+  forall m e q s x, 0 < m ->
+    GenScaling.quantise_scale (Dy m e) = (q, s) -> q <> 0 -> 0 <= s <= 62 ->
+    in32 x -> in32 (x * 2 ^ (Z.max 0 (31 - s))) ->
+    exists qt st, tfl_quantize_multiplier (Dy m e) = (qt, st) /\ scale_tfl x q s = MultiplyByQuantizedMultiplier x qt st.
+Proof.
+  intros m e q s x Hm Hq Hnz Hs Hx Hp.
+  destruct (ScalingProofs.quantise_scale_is_tflite_lemma m e q s Hm Hq Hnz Hs) as [Ht Hr].
+  exists q, (31 - s). split; [exact Ht|].
+  apply NpuExecProofs.scale_tfl_is_reference; try assumption.
+  change (2 ^ 30) with 1073741824 in Hr. change (2 ^ 31) with 2147483648 in Hr. unfold in32. lia.
+Qed.
+
+(* non-vacuity: 0.1 = 7205759403792794 * 2^-56 gives (1717986918, 34) and the accumulator 12345 scales to 1235 *)
+Example requantisation_example :
+  GenScaling.quantise_scale (Dy 7205759403792794 (-56)) = (1717986918, 34) /\ scale_tfl 12345 1717986918 34 = 1235 /\ MultiplyByQuantizedMultiplier 12345 1717986918 (-3) = 1235.
+Proof. repeat split; vm_compute; reflexivity. Qed.
+
+(* before the repair c949748 the multiplier 2^31 was kept where the reference renormalises: the TFL mode
+   then differs from the reference (the witness found by trying to prove the theorem above) *)
+Theorem unrenormalised_multiplier_differs :
+  scale_tfl 31 (2 ^ 31) 37 = 0 /\ MultiplyByQuantizedMultiplier 31 (2 ^ 30) (31 - 36) = 1.
+Proof. exact NpuExecProofs.scale_tfl_unrenormalised_differs. Qed.
 
 (* the clamp keeps every produced value inside the programmed activation range *)
 Theorem clamp_in_range : forall lo hi v, lo <= hi -> lo <= clampz lo hi v <= hi.
@@ -26,3 +63,6 @@ Proof.
 Qed.
 
 Print Assumptions scale_natural_is_round_half_up.
+Print Assumptions scale_tfl_is_reference.
+Print Assumptions requantisation_end_to_end.
+Print Assumptions clamp_in_range.
